@@ -347,6 +347,39 @@ def first_value_only(g):
     return out
 
 
+FIRST_MATCH = ("find", "find_map", "rfind", "position", "rposition", "min_by", "min_by_key", "max_by", "max_by_key", "nth")
+LCOMB_TERMS = ("FIELD", "data_structures::LinearCombination", "terms")
+
+
+def first_match_only(ctx, g):
+    """first-match adaptors over the terms of a linear combination whose result carries a coefficient (a scalar) that
+    can reach the outcome. Asking whether some term has a property, or which label it has, carries no scalar and is
+    not meant."""
+    from .. import tables as T
+    from ..flow import DATA, ALIAS
+    f = g.facts
+    if LCOMB_TERMS not in g.fwd:
+        return []
+    terms = None
+    out = []
+    for bid in sorted(g.scope):
+        b = f.bodies[bid]
+        for i, t in b.calls():
+            if (t.get("callee") or "").rsplit("::", 1)[-1] not in FIRST_MATCH or "iter" not in (t.get("callee") or "").lower():
+                continue
+            if not t["args"] or t["args"][0]["k"] not in ("copy", "move"):
+                continue
+            # the receiver is (a filtered / reversed view of) the terms vector itself, not merely something computed
+            # from the terms
+            from .lenguard import alias_roots
+            if LCOMB_TERMS not in alias_roots(g, (bid, t["args"][0]["pl"]["l"]), (), ("filter", "skip", "skip_while", "peekable", "take_while", "step_by")):
+                continue
+            g.reach([("STATE", (bid, t["dst"]["l"]), ty) for ty in T.SCALARS], cut=ctx.sponge_cut(g), want=OUTCOME)
+            if g.last_goal is not None:
+                out.append((bid, i, t))
+    return out
+
+
 def run_last_value(rep, ctx, anchor, rule="R1L"):
     """one instance per verifier anchor: no per-iteration value survives only as the last one."""
     g = ctx.graph(anchor)
@@ -366,6 +399,11 @@ def run_last_value(rep, ctx, anchor, rule="R1L"):
                 "the single slot filled by `%s` at %s sits in a loop and is offered a value that differs from iteration to "
                 "iteration: the first element's value is kept and used for every later element" % (
                     (t.get("callee") or "?").rsplit("::", 1)[-1], t["span"]), t["span"])
+    for (bid, i, t) in first_match_only(ctx, g):
+        rep.add(rule, "%s:first-match:%s@%s" % (anchor.key, (t.get("callee") or "?").rsplit("::", 1)[-1], short(bid)), False,
+                "`%s` at %s picks the first matching term of an equation, and the coefficient it returns reaches the decision: "
+                "a second matching term (another constant term) is never looked at" % ((t.get("callee") or "?").rsplit("::", 1)[-1], t["span"]),
+                t["span"])
     if not bad:
         rep.add(rule, "%s:no-last-value-only" % anchor.key, True,
                 "no value computed per loop iteration is carried out of the loop unused (%d bodies with loops examined)" % loops,
